@@ -190,7 +190,8 @@ pub fn src_name(i: usize) -> String {
     if LAYOUT.with(|l| l.get()) {
         match i % 3 {
             0 => format!("{}{}.txt.txtpp", LAYOUT_DIRS[i], NAMES[i]),
-            1 => format!("{}{}.txtpp.txt", LAYOUT_DIRS[i], NAMES[i]),
+            // infix shape with a dotted stem (b.v2.txtpp.txt -> b.v2.txt)
+            1 => format!("{}{}.v2.txtpp.txt", LAYOUT_DIRS[i], NAMES[i]),
             _ => format!("{}{}.txtpp", LAYOUT_DIRS[i], NAMES[i]),
         }
     } else {
@@ -201,6 +202,7 @@ pub fn out_name(i: usize) -> String {
     if LAYOUT.with(|l| l.get()) {
         match i % 3 {
             2 => format!("{}{}", LAYOUT_DIRS[i], NAMES[i]),
+            1 => format!("{}{}.v2.txt", LAYOUT_DIRS[i], NAMES[i]),
             _ => format!("{}{}.txt", LAYOUT_DIRS[i], NAMES[i]),
         }
     } else {
@@ -775,6 +777,20 @@ fn alias_cases(proj: &Proj, thorough: bool) -> Vec<Case> {
         // recursive scan through a directory symlink that aliases an ancestor
         v.push(mk(vec!["."], all.clone(), dl, true));
     }
+    // the sources are reached ONLY through symbolic links found by scanning: a directory of file links ...
+    let mut only_links = Tree::new();
+    only_links.insert("links".into(), Node::Dir);
+    for i in 0..n {
+        only_links.insert(format!("links/{}.txt.txtpp", NAMES[i]), Node::Link(format!("../{}.txt.txtpp", NAMES[i])));
+    }
+    v.push(mk(vec!["links"], all.clone(), only_links, false));
+    // ... and a directory link to the project directory inside an otherwise empty directory, scanned recursively
+    let mut dir_link = Tree::new();
+    dir_link.insert("outer".into(), Node::Dir);
+    dir_link.insert("outer/proj".into(), Node::Link("..".into()));
+    if n <= 2 || (thorough && n <= 3) {
+        v.push(mk(vec!["outer"], all.clone(), dir_link, true));
+    }
     v
 }
 
@@ -884,6 +900,10 @@ pub fn plan(prop: &str, thorough: bool) -> Vec<Case> {
             for g in g4.iter() {
                 let proj = Proj { g: *g, style: Style::Include, layout: false, err: None };
                 cases.extend(sel_cases(&proj, &[Pre::Stale], &[Mode::Build], true));
+            }
+            // files spread over directories, all three source-name shapes (the infix one with a dotted stem)
+            for g in graphs.iter().filter(|g| g.n == 3 && !g.edges().is_empty() && (thorough || g.canonical() == g.adj)) {
+                cases.extend(layout_cases(g, Style::Include));
             }
             // every dependency listed twice (multi-edges: the last entry of a dependency list repeats an earlier one)
             for g in graphs.iter().chain(g4.iter()).filter(|g| !g.edges().is_empty() && (thorough || g.n < 4 || g.edges().len() <= 3)) {
